@@ -1,11 +1,12 @@
 //! Conformance drivers for the DNS server properties (C36-C39).
-//! Subcommands: c37, c38
+//! Subcommands: c36, c37, c38
 use serde::{Deserialize, Serialize};
 use vh::io::{Args, NdjsonOut, read_ndjson};
 
 fn main() {
     let args = Args::parse();
     match args.sub.as_str() {
+        "c36" => c36::run(&args),
         "c37" => c37::run(&args),
         "c38" => c38::run(&args),
         other => {
@@ -93,11 +94,12 @@ mod common {
             let v = r.v;
             let data: RData<'static> = match r.ty.as_str() {
                 "TXT" => {
+                    let value = txt_value(v);
                     let mut t = rdata::TXT::new();
-                    t.add_string(&txt_value(v)).expect("txt");
+                    t.add_string(&value).expect("txt");
                     RData::TXT(t.into_owned())
                 }
-                "A" => RData::A(rdata::A { address: Ipv4Addr::new(10, 0, 0, v as u8).into() }),
+                "A" => RData::A(rdata::A { address: Ipv4Addr::new(10, 0, (v >> 8) as u8, v as u8).into() }),
                 "AAAA" => RData::AAAA(rdata::AAAA {
                     address: Ipv6Addr::new(0xfd00, 0, 0, 0, 0, 0, 0, v as u16).into(),
                 }),
@@ -373,7 +375,7 @@ mod c38 {
     }
 
     const TS_BASE: u64 = 1_700_000_000_000_000;
-    const BLOCK_MS: u64 = 120;
+    const BLOCK_MS: u64 = 300;
 
     fn version_of(txt: &str) -> u64 {
         txt.strip_prefix("v=").and_then(|v| v.parse().ok()).unwrap_or(999)
@@ -447,6 +449,17 @@ mod c38 {
             }
         }
 
+        fn describe(&self) -> String {
+            self.procs
+                .iter()
+                .map(|(n, p)| {
+                    let arrived: Vec<usize> = p.gates.iter().map(|g| verif::arrived(g)).collect();
+                    format!("{n}[started={} at={:?} next_gate={} done={} arrived={arrived:?}]", p.started, p.at, p.next_gate, p.outcome.is_some())
+                })
+                .collect::<Vec<_>>()
+                .join(" ")
+        }
+
         fn poll_others(&mut self, except: &str) {
             let names: Vec<String> = self.procs.keys().filter(|n| n.as_str() != except).cloned().collect();
             for n in names {
@@ -513,7 +526,9 @@ mod c38 {
             }
             let resolver = s.a.starts_with('R');
             let (ver, gates) = if resolver {
-                (0, vec![format!("dnssrv.resolve.miss:{}", s.p), format!("dnssrv.resolve.got:{}", s.p)])
+                // the tag is the queried name as store.rs prints it
+                let tag = Name::from_labels(vec![s.p.as_bytes()]).expect("name").to_string();
+                (0, vec![format!("dnssrv.resolve.miss:{tag}"), format!("dnssrv.resolve.got:{tag}")])
             } else {
                 let ver = c.verof[&s.p];
                 let tag = packet_tag(&packets[ver as usize - 1]);
@@ -549,8 +564,9 @@ mod c38 {
                 }
             } else {
                 // the call must be held at the pause point before this action
-                if !run.wait(&s.p, 3000) {
+                if !run.wait(&s.p, 10_000) {
                     run.out.hang = true;
+                    run.out.error = format!("step {i} ({}.{}): call neither paused nor finished: {}", s.p, s.a, run.describe());
                     break;
                 }
                 let p = run.procs.get_mut(&s.p).unwrap();
@@ -587,8 +603,11 @@ mod c38 {
             if all {
                 break;
             }
-            if t0.elapsed() > Duration::from_secs(5) {
+            if t0.elapsed() > Duration::from_secs(20) {
                 run.out.hang = true;
+                if run.out.error.is_empty() {
+                    run.out.error = format!("calls did not return after all pause points were released: {}", run.describe());
+                }
                 break;
             }
             std::thread::sleep(Duration::from_micros(50));
@@ -618,5 +637,314 @@ mod c38 {
         }
         out.finish();
         drop(store);
+    }
+}
+
+/// C36: replay put sequences generated by TLC (specs/dnsserver/DnsServer.tla, Gen36) on the public
+/// `iroh_dns_server::Server` bound to 127.0.0.1: PUT / GET `/pkarr/<z32>` over HTTP and DNS queries
+/// over UDP; after every put the whole observation table is compared with the model.
+mod c36 {
+    use std::{
+        collections::{BTreeMap, BTreeSet},
+        net::{IpAddr, Ipv4Addr, SocketAddr},
+        time::Duration,
+    };
+
+    use iroh_dns_server::{
+        Server,
+        config::{Config, MetricsConfig, RateLimitConfig},
+    };
+    use simple_dns::{CLASS, Name, Packet, QCLASS, QTYPE, Question, TYPE, rdata::RData};
+    use tokio::{
+        io::{AsyncReadExt, AsyncWriteExt},
+        net::{TcpStream, UdpSocket},
+    };
+
+    use super::{common::*, *};
+
+    #[derive(Deserialize)]
+    struct StoredExp {
+        ts: u64,
+    }
+    #[derive(Deserialize)]
+    struct Row {
+        k: String,
+        rel: String,
+        ty: String,
+        vs: Vec<u64>,
+    }
+    #[derive(Deserialize)]
+    struct Step {
+        k: String,
+        signer: String,
+        #[serde(rename = "sigOk")]
+        sig_ok: bool,
+        ts: u64,
+        recs: Vec<Rec>,
+        res: String,
+        stored: BTreeMap<String, StoredExp>,
+        table: Vec<Row>,
+    }
+    #[derive(Deserialize)]
+    struct Behaviour {
+        steps: Vec<Step>,
+    }
+
+    const RELS: [&str; 3] = ["@", "_iroh", "a.b"];
+    const TYPES: [&str; 6] = ["TXT", "A", "AAAA", "SOA", "NS", "CNAME"];
+    const ORIGIN: &str = "irohdns.example";
+
+    /// Environment failure (socket, timeout of the harness itself): never a property violation.
+    fn env<T, E: std::fmt::Display>(r: Result<T, E>, what: &str) -> T {
+        match r {
+            Ok(v) => v,
+            Err(e) => {
+                eprintln!("environment: {what}: {e}");
+                std::process::exit(3);
+            }
+        }
+    }
+
+    async fn http(addr: SocketAddr, method: &str, path: &str, body: &[u8]) -> (u16, Vec<u8>) {
+        let fut = async {
+            let mut s = TcpStream::connect(addr).await?;
+            let head = format!(
+                "{method} {path} HTTP/1.1\r\nHost: localhost\r\nConnection: close\r\nContent-Length: {}\r\n\r\n",
+                body.len()
+            );
+            s.write_all(head.as_bytes()).await?;
+            s.write_all(body).await?;
+            let mut resp = Vec::new();
+            s.read_to_end(&mut resp).await?;
+            Ok::<_, std::io::Error>(resp)
+        };
+        let resp = env(env(tokio::time::timeout(Duration::from_secs(20), fut).await, "http timeout"), "http io");
+        let split = resp.windows(4).position(|w| w == b"\r\n\r\n").unwrap_or(resp.len());
+        let head = String::from_utf8_lossy(&resp[..split]).to_string();
+        let status: u16 = head.split_whitespace().nth(1).and_then(|c| c.parse().ok()).unwrap_or(0);
+        let mut body = resp.get(split + 4..).unwrap_or(&[]).to_vec();
+        if head.to_ascii_lowercase().contains("transfer-encoding: chunked") {
+            // de-chunk
+            let mut out = Vec::new();
+            let mut rest = &body[..];
+            loop {
+                let Some(nl) = rest.windows(2).position(|w| w == b"\r\n") else { break };
+                let len = usize::from_str_radix(String::from_utf8_lossy(&rest[..nl]).trim(), 16).unwrap_or(0);
+                if len == 0 {
+                    break;
+                }
+                out.extend_from_slice(&rest[nl + 2..nl + 2 + len]);
+                rest = &rest[nl + 2 + len + 2..];
+            }
+            body = out;
+        }
+        (status, body)
+    }
+
+    fn qtype(ty: &str) -> TYPE {
+        match ty {
+            "TXT" => TYPE::TXT,
+            "A" => TYPE::A,
+            "AAAA" => TYPE::AAAA,
+            "SOA" => TYPE::SOA,
+            "NS" => TYPE::NS,
+            "CNAME" => TYPE::CNAME,
+            other => panic!("type {other}"),
+        }
+    }
+
+    /// Value id carried by an answer record, if it is one of ours.
+    fn value_of(data: &RData) -> Option<u64> {
+        let num = |s: &str, prefix: &str| -> Option<u64> {
+            let s = s.strip_prefix(prefix)?;
+            let digits: String = s.chars().take_while(|c| c.is_ascii_digit()).collect();
+            if s[digits.len()..].starts_with(".verif.test") { digits.parse().ok() } else { None }
+        };
+        match data {
+            RData::TXT(t) => {
+                let s: String = t.clone().try_into().ok()?;
+                s.strip_prefix("v=")?.parse().ok()
+            }
+            RData::A(a) => {
+                let o = Ipv4Addr::from(a.address).octets();
+                (o[0] == 10 && o[1] == 0).then_some(o[2] as u64 * 256 + o[3] as u64)
+            }
+            RData::AAAA(a) => {
+                let seg = std::net::Ipv6Addr::from(a.address).segments();
+                (seg[0] == 0xfd00).then_some(seg[7] as u64)
+            }
+            RData::CNAME(c) => num(&c.0.to_string(), "t"),
+            RData::NS(n) => num(&n.0.to_string(), "ns"),
+            RData::SOA(s) => num(&s.mname.to_string(), "ns"),
+            _ => None,
+        }
+    }
+
+    struct Dns {
+        sock: UdpSocket,
+        server: SocketAddr,
+        id: u16,
+    }
+
+    impl Dns {
+        /// (rcode, answers as (owner, type, value id or 0 for foreign data))
+        async fn query(&mut self, name: &str, ty: &str) -> (String, Vec<(String, String, u64)>) {
+            self.id = self.id.wrapping_add(1);
+            let mut q = Packet::new_query(self.id);
+            q.questions.push(Question::new(Name::new_unchecked(name), QTYPE::TYPE(qtype(ty)), QCLASS::CLASS(CLASS::IN), false));
+            let bytes = env(q.build_bytes_vec(), "encode query");
+            env(self.sock.send_to(&bytes, self.server).await, "udp send");
+            let mut buf = vec![0u8; 4096];
+            loop {
+                let n = env(env(tokio::time::timeout(Duration::from_secs(20), self.sock.recv(&mut buf)).await, "dns timeout"), "udp recv");
+                let resp = env(Packet::parse(&buf[..n]), "parse dns response");
+                if resp.id() != self.id {
+                    continue;
+                }
+                let answers = resp
+                    .answers
+                    .iter()
+                    .map(|a| {
+                        let t = format!("{:?}", a.rdata.type_code());
+                        (a.name.to_string(), t, value_of(&a.rdata).unwrap_or(0))
+                    })
+                    .collect();
+                return (format!("{:?}", resp.rcode()), answers);
+            }
+        }
+    }
+
+    /// Concrete value of a model record: value id + 10 * timestamp + 100 * index of the signer.
+    fn concrete_v(v: u64, ts: u64, signer: &str) -> u64 {
+        let idx: u64 = signer.trim_start_matches('k').parse().unwrap_or(9);
+        v + 10 * ts + 100 * idx
+    }
+
+    async fn replay(http_addr: SocketAddr, dns: &mut Dns, case: usize, b: &Behaviour, ts_base: u64) -> Result<(), Mismatch> {
+        let seed = seed();
+        let names: Vec<String> = b.steps[0].stored.keys().cloned().collect();
+        let secrets: BTreeMap<String, iroh_base::SecretKey> =
+            names.iter().map(|n| (n.clone(), secret(seed, case as u64, n))).collect();
+        // variants of a zone label that is not a key: plain word / key label not last / no label at all
+        let other = match (seed as usize + case) % 3 {
+            0 => "example".to_string(),
+            1 => format!("{}.example", secrets[&names[0]].public().to_z32()),
+            _ => String::new(),
+        };
+        let zone = |zl: &str| if zl == "other" { other.clone() } else { secrets[zl].public().to_z32() };
+        // relay payload of the packet currently accepted per (key, ts)
+        let mut accepted: BTreeMap<(String, u64), Vec<u8>> = BTreeMap::new();
+        for (i, s) in b.steps.iter().enumerate() {
+            let recs: Vec<Rec> = s.recs.iter().map(|r| Rec { v: concrete_v(r.v, s.ts, &s.signer), ..r.clone() }).collect();
+            let payload = dns_payload(&recs, &zone);
+            let bytes = packet_bytes(&secrets[&s.signer], ts_base + s.ts * 1_000_000, &payload, !s.sig_ok);
+            let body = bytes[32..].to_vec();
+            let path = format!("/pkarr/{}", secrets[&s.k].public().to_z32());
+            let (status, _) = http(http_addr, "PUT", &path, &body).await;
+            let exp_status = if s.res == "rejected" { 400 } else { 204 };
+            if status != exp_status {
+                return Err((i, "PUT status".into(), exp_status.to_string(), status.to_string()));
+            }
+            if s.res != "rejected" {
+                accepted.insert((s.k.clone(), s.ts), body);
+            }
+            for (x, exp) in &s.stored {
+                let z32 = secrets[x].public().to_z32();
+                let (status, got) = http(http_addr, "GET", &format!("/pkarr/{z32}"), &[]).await;
+                let exp_desc = if exp.ts == 0 { format!("{x}:404") } else { format!("{x}:ts{}", exp.ts) };
+                let got_desc = if status == 404 {
+                    format!("{x}:404")
+                } else if status != 200 {
+                    format!("{x}:status{status}")
+                } else {
+                    match accepted.iter().find(|(_, p)| **p == got) {
+                        Some(((k, ts), _)) => format!("{k}:ts{ts}"),
+                        None => format!("{x}:unknown-bytes"),
+                    }
+                };
+                if exp_desc != got_desc {
+                    return Err((i, format!("GET /pkarr for {x}"), exp_desc, got_desc));
+                }
+                for rel in RELS {
+                    for ty in TYPES {
+                        let exp_vs: BTreeSet<u64> = s
+                            .table
+                            .iter()
+                            .find(|r| &r.k == x && r.rel == rel && r.ty == ty)
+                            .map(|r| r.vs.iter().map(|v| concrete_v(*v, exp.ts, x)).collect())
+                            .unwrap_or_default();
+                        let relp = if rel == "@" { String::new() } else { format!("{rel}.") };
+                        // under the configured origin, and (for one name per key) under the root origin
+                        let mut qnames = vec![format!("{relp}{z32}.{ORIGIN}")];
+                        if rel == "_iroh" {
+                            qnames.push(format!("{relp}{z32}"));
+                        }
+                        for qname in qnames {
+                            let (rcode, answers) = dns.query(&qname, ty).await;
+                            let mut got_vs = BTreeSet::new();
+                            for (owner, t, v) in &answers {
+                                if v != &0 {
+                                    got_vs.insert(*v);
+                                    if !owner.trim_end_matches('.').eq_ignore_ascii_case(&qname) || t != ty {
+                                        return Err((i, format!("DNS answer owner/type for {x} {rel} {ty}"), format!("{qname} {ty}"), format!("{owner} {t}")));
+                                    }
+                                }
+                            }
+                            if got_vs != exp_vs {
+                                return Err((
+                                    i,
+                                    format!("DNS answer for {x} {rel} {ty}"),
+                                    format!("{exp_vs:?}"),
+                                    format!("{got_vs:?} ({rcode}, {} records, name {qname})", answers.len()),
+                                ));
+                            }
+                        }
+                    }
+                }
+            }
+        }
+        Ok(())
+    }
+
+    pub fn run(args: &Args) {
+        let cases: Vec<Behaviour> = read_ndjson(&args.path("in"));
+        let mut out = NdjsonOut::create(&args.path("out"));
+        let dir = args.path("dir");
+        let rt = tokio::runtime::Builder::new_multi_thread().worker_threads(4).enable_all().build().unwrap();
+        let lo = IpAddr::V4(Ipv4Addr::LOCALHOST);
+        let server = rt.block_on(async {
+            let mut config = Config::default();
+            config.dns.port = 0;
+            config.dns.bind_addr = Some(lo);
+            let h = config.http.as_mut().expect("default http config");
+            h.port = 0;
+            h.bind_addr = Some(lo);
+            config.https = None;
+            config.metrics = Some(MetricsConfig::disabled());
+            config.mainline = None;
+            config.pkarr_put_rate_limit = RateLimitConfig::Disabled;
+            config.data_dir = Some(dir.clone());
+            env(Server::bind(config).await, "bind iroh-dns-server on 127.0.0.1")
+        });
+        let http_addr = env(server.http_addr().ok_or("no http listener"), "http addr");
+        let dns_addr = server.dns_addr();
+        let mut dns = rt.block_on(async {
+            Dns { sock: env(UdpSocket::bind((lo, 0)).await, "bind udp"), server: dns_addr, id: 1 }
+        });
+        env(rt.block_on(dns.sock.connect(dns_addr)), "connect udp");
+        // timestamps one hour back: far from the 7-day eviction cut-off and from the future
+        let now = std::time::SystemTime::now().duration_since(std::time::UNIX_EPOCH).unwrap().as_micros() as u64;
+        let ts_base = now - 3_600_000_000;
+        for (case, b) in cases.iter().enumerate() {
+            let r = vh::io::catch(|| rt.block_on(replay(http_addr, &mut dns, case, b, ts_base)));
+            let obs = match r {
+                Ok(Ok(())) => Obs::good(case),
+                Ok(Err((step, what, exp, got))) => Obs { case, ok: false, step, what, exp, got },
+                Err(p) => Obs { case, ok: false, step: 0, what: "panic".into(), exp: "no panic".into(), got: p },
+            };
+            out.emit(&obs);
+        }
+        out.finish();
+        env(rt.block_on(server.shutdown()), "server shutdown");
     }
 }
